@@ -68,6 +68,15 @@ def tasks(tier):
             else:
                 out.append({"family": "permit", "cfg": cfg, "entry": e, "bound": bound,
                             "weight": M})
+    # the limits reach the loop through every sugar layer (None = "no such limit" included)
+    SUGAR = ["deco", "adeco", "RetryPolicy.call", "AsyncRetryPolicy.execute", "RetryCfg.call",
+             "AsyncRetryCfg.execute", "RetryPolicyCfg.execute", "AsyncRetryPolicyCfg.call",
+             "Policy.context", "AsyncPolicy.context", "RetryPolicySet.call",
+             "AsyncRetryPolicySet.execute", "RetrySet.execute", "AsyncRetrySet.call"]
+    for pc, mu, e in itertools.product([{}, {"U": 3}, {"T": 1}], [None, 1, 3], SUGAR):
+        cfg = dict(M=4, per_class=pc, max_unknown=mu, alphabet=["ok", "x:U", "x:T", "r:U"],
+                   sleeper="policy")
+        out.append({"family": "permit-sugar", "cfg": cfg, "entry": e, "bound": 0})
     # another user of the shared budget takes a token while the library is inside a callback
     for M, bud, e in itertools.product([2, 3], [{"max": 1, "window": 8}, {"max": 2, "window": 8}],
                                        Q4):
